@@ -57,6 +57,9 @@ impl<R: Read + Seek> ReadBox<&mut R> for MvexBox {
                     "mvex box contains a box with a larger size than it",
                 ));
             }
+            if s == 0 {
+                return Err(Error::InvalidData("mvex box contains a box with size 0"));
+            }
 
             match name {
                 BoxType::MehdBox => {
